@@ -360,7 +360,7 @@ def run_runner(binp, cases, out, indented=False, per_case_timeout=20, total_time
     return outl
 
 
-def harness_outcomes(fam, tier, seed, cdir, indented=False, extra_deps="", main_rs=None):
+def harness_outcomes(fam, tier, seed, cdir, indented=True, extra_deps="", main_rs=None):
     """build the family crate against /repo's current tree and run all cases
     -> dict(outcomes=[...], build_ok, build_err, front={id: (verdict, msg)})"""
     d = famdir(fam, tier)
